@@ -496,6 +496,14 @@ func (w *World) execOp(t *Task, idx int) {
 	if simrt.Aborted() != 0 {
 		return
 	}
+	switch o.Kind {
+	case opCall, opCallShared, opRetrieve, opCallPublished:
+		if strings.HasPrefix(o.Got, "[") {
+			t.probe("evaluation-returned-values")
+		} else {
+			t.probe("evaluation-returned-error")
+		}
+	}
 	// outcomes are part of the run's event digest (R-order compares digests across process orders)
 	simrt.Mix(fnv(o.Got) ^ fnv(o.GotLog)<<1)
 	if len(t.rec.Calls) > 0 {
